@@ -670,7 +670,7 @@ func runObjects(c *fw.Ctx, count bool) {
 }
 
 func run(c *fw.Ctx) {
-	n := c.Pick(3000, 300000)
+	n := c.Pick(60000, 3000000)
 	for i := 0; i < n; i++ {
 		if c.Mine(i) {
 			runStack(c, i, true)
